@@ -3,15 +3,8 @@
 //!   verif replay <ID> <file>
 //!   verif worker            (internal)
 
-pub mod alloc_count;
-pub mod checks;
-pub mod g;
-pub mod harness;
-pub mod pool;
-pub mod proto;
-pub mod worker;
-
-use harness::{Ctx, Mode, Tier};
+use verif::harness::{Ctx, Mode, Tier};
+use verif::{alloc_count, checks, proto, worker};
 
 #[global_allocator]
 static GLOBAL: alloc_count::Counting = alloc_count::Counting;
